@@ -86,6 +86,12 @@ func sqlC06(args []string) error {
 
 	for sc := envStart(); sc < nscen; sc++ {
 		rng := scenarioRng(sc)
+		if sc%8 == 7 {
+			if err := dmlUnderPressure(tw, rng, sc); err != nil {
+				return err
+			}
+			continue
+		}
 		s, err := newRun(tw, ctxName("C06"), 400)
 		if err != nil {
 			return err
@@ -170,6 +176,49 @@ func sqlC06(args []string) error {
 		}
 	}
 	return tw.Close()
+}
+
+// dmlUnderPressure: committed statements on a table of ~45 heap pages (560 rows of 300 bytes, no index) in a pool of
+// 24 frames; between a statement and the reads that check it another table of the same size is scanned, so that every
+// page the statement changed has left the pool and is read back from the file.
+func dmlUnderPressure(tw *trace.Writer, rng *rand.Rand, sc int) error {
+	s, err := newRun(tw, ctxName("C06"), 96)
+	if err != nil {
+		return err
+	}
+	mk := func(name string) *tableDef {
+		t := &tableDef{name: name, cols: []string{"int", "varchar"}, names: []string{"c0", "c1"}, kinds: []string{"none", "none"}}
+		s.createAPI(t)
+		for b := 0; b < 28 && !s.dead; b++ {
+			rows := [][]int{}
+			for j := 0; j < 20; j++ {
+				rows = append(rows, []int{rng.Intn(NRanks - 1), NRanks - 1})
+			}
+			s.insert(t, rows, nil)
+		}
+		return t
+	}
+	t, other := mk(fmt.Sprintf("w%d", sc)), mk(fmt.Sprintf("x%d", sc))
+	for round := 0; round < 4 && !s.dead; round++ {
+		switch rng.Intn(4) {
+		case 0:
+			s.delete(t, atom(0, "=", rng.Intn(NRanks-1)))
+		case 1: // in place
+			s.update(t, [][2]int{{0, rng.Intn(NRanks - 1)}}, atom(0, "=", rng.Intn(NRanks-1)))
+		case 2: // rows shrink (and are moved)
+			s.update(t, [][2]int{{1, rng.Intn(NRanks - 1)}}, atom(0, "=", rng.Intn(NRanks-1)))
+		default:
+			rows := [][]int{}
+			for j := 0; j < 15; j++ {
+				rows = append(rows, []int{rng.Intn(NRanks - 1), rng.Intn(NRanks)})
+			}
+			s.insert(t, rows, nil)
+		}
+		s.scan(other)
+		s.scan(t)
+		s.selectQ(t, atom(0, "=", rng.Intn(NRanks-1)), nil, false)
+	}
+	return nil
 }
 
 // emptiedPages: a heap of several pages filled in key order (about 12 rows of 300 bytes per page), from which whole
